@@ -123,6 +123,8 @@ type Shim struct {
 	Apps    map[string]*MApp
 	Nodes   map[string]*MNode
 	Foreign map[string]*MAlloc
+	// RejectNoEffect: keys for which the next RejectedAllocation answers an invalid update, not the ask itself
+	RejectNoEffect map[string]bool
 
 	Owed []Obligation
 
@@ -171,7 +173,7 @@ type Violation struct {
 
 func NewShim(c *conductorT, seed uint64) *Shim {
 	return &Shim{c: c, rmID: "rm:1", Allocs: map[string]*MAlloc{}, Apps: map[string]*MApp{}, Nodes: map[string]*MNode{},
-		badIDs: map[string]string{}, Foreign: map[string]*MAlloc{}, rng: NewRng(seed, "shim"), faults: map[string]int{}, lastPredOK: map[string]bool{}}
+		badIDs: map[string]string{}, Foreign: map[string]*MAlloc{}, RejectNoEffect: map[string]bool{}, rng: NewRng(seed, "shim"), faults: map[string]int{}, lastPredOK: map[string]bool{}}
 }
 
 func (s *Shim) violate(prop, clause, sig, format string, args ...any) {
@@ -506,6 +508,11 @@ func (s *Shim) onReleased(r *si.AllocationRelease) {
 
 func (s *Shim) onRejectedAlloc(r *si.RejectedAllocation) {
 	s.ev(SIEvent{Kind: "rejectedAlloc", Key: r.AllocationKey, App: r.ApplicationID, Msg: r.Reason})
+	if s.RejectNoEffect[r.AllocationKey] {
+		// the refusal of an invalid update of an ask the core keeps as it was
+		delete(s.RejectNoEffect, r.AllocationKey)
+		return
+	}
 	if m := s.Allocs[r.AllocationKey]; m != nil {
 		if m.Status == stPending || (m.RMPlaced && !m.EverBound) {
 			m.Status = stGone
